@@ -20,7 +20,7 @@ from hl7apy.parser import parse_segment, parse_message, parse_field
 # ---- op codes ------------------------------------------------------------------------------------------
 (NOP, SET, ADD, IDX, DELI, SETLONG, ADDH, DELN, REM, COPY, SETELEM,
  REATTACH, WRONGCLS, OTHERVER, OTHERLVL, SETWRONG, READ, SETBADVAL, IDXELEMLVL, SETELEMVER, DTCHANGE,
- NESTED, REATTACHBAD, SETDT, SETVALUE, PROXYVAL, SETDTOK) = range(27)
+ NESTED, REATTACHBAD, SETDT, SETVALUE, PROXYVAL, SETDTOK, DELCH) = range(28)
 OPNAMES = ['nop', 'set-by-name', 'add(elem)', 'proxy[i]=v', 'del proxy[i]', 'set-by-long-name', 'add_<child>()+value',
            'del by name', 'children.remove', 'copy from other element', 'set-by-name(elem)',
            'other.add(child of target)', 'add(elem of wrong class)', 'add(elem of other version)',
@@ -29,9 +29,9 @@ OPNAMES = ['nop', 'set-by-name', 'add(elem)', 'proxy[i]=v', 'del proxy[i]', 'set
            'change datatype of populated child', 'nested set through the proxy (el.child.sub = v)',
            'other-level element .add(child of target)', 'set-by-name(base datatype object)',
            'el.value = text with a repeated non-repeatable child', 'el.child.value = value invalid under STRICT',
-           'set-by-name(base datatype object of the child\'s own datatype)']
+           'set-by-name(base datatype object of the child\'s own datatype)', 'del el.children[position of the i-th child of that name]']
 CORE_OPS = [SET, ADD, IDX, DELI]
-FULL_OPS = [SET, ADD, IDX, DELI, SETLONG, ADDH, DELN, REM, COPY, SETELEM, NESTED, SETDTOK]
+FULL_OPS = [SET, ADD, IDX, DELI, SETLONG, ADDH, DELN, REM, COPY, SETELEM, NESTED, SETDTOK, DELCH]
 # operations that are meant to be refused (or that stress attachment) - used by C10 / C12
 REJECT_OPS = [REATTACH, WRONGCLS, OTHERVER, OTHERLVL, SETWRONG, READ, SETBADVAL, IDXELEMLVL, SETELEMVER, DTCHANGE, REATTACHBAD,
               SETDT, SETVALUE, PROXYVAL]
@@ -65,7 +65,7 @@ def actions(target, ops, names=None, nidx=None):
                 continue
             if op in (WRONGCLS, READ, SETVALUE) and n != (names[0] if names else 0):
                 continue   # the child name is irrelevant for these
-            if op in (IDX, DELI, REM, REATTACH, IDXELEMLVL, REATTACHBAD):
+            if op in (IDX, DELI, REM, REATTACH, IDXELEMLVL, REATTACHBAD, DELCH):
                 for i in range(nidx if op not in (REATTACH, REATTACHBAD) else 2):
                     acts.append((op, n, i))
             else:
@@ -296,6 +296,9 @@ def apply_real(target, el, act, step, level, other=None, offered=None, otherbad=
         getattr(el, name.lower())[i] = t
     elif op == DELI:
         del getattr(el, name.lower())[i]
+    elif op == DELCH:
+        at = [k for k, c in enumerate(el.children) if c.name == name]
+        del el.children[at[i]]
     elif op == DELN:
         delattr(el, name.lower())
     elif op == REM:
@@ -334,7 +337,7 @@ def apply_model(target, model, act, step, level):
             model[mine[i]] = (name, t)
         else:
             model.append((name, t))
-    elif op in (DELI, REM):
+    elif op in (DELI, REM, DELCH):
         if i < len(mine):
             del model[mine[i]]
         else:
